@@ -6,7 +6,8 @@
 
   (a) `Pure2 K.lenM K.marshalM v` — neither Len() nor MarshalBinary() modifies the value (most kinds);
   (b) `Repeatable K.lenM K.marshalM v` (OFV/Lemmas/SizeRepeat.lean) for the kinds that DO store something in the
-      receiver (header Length fields, Bucket.Length, NXActionCTNAT's rounding, NXActionResubmit.TableID …):
+      receiver (header Length fields, Bucket.Length, the hello element's Length, NXActionCTNAT's rounding,
+      NXActionResubmit.TableID …):
         lenIdem      Len(); Len()                       second call: same size, nothing changes any more
         marIdem      MarshalBinary(); MarshalBinary()   second call: same bytes, nothing changes any more
         lenAfterMar  Len() after MarshalBinary()        the size Len() gave before
@@ -917,26 +918,84 @@ theorem bucket_repeatable (v : V) : Repeatable Bucket.lenM Bucket.marshalM v := 
 /-- HelloElemHeader: neither Len() nor MarshalBinary() modifies the value -/
 theorem helloElemHeader_pure (v : V) : Pure2 HelloElemHeader.lenM HelloElemHeader.marshalM v :=
   ⟨fun _ _ h => (same_ok _ _ _ _ h).2, HelloElemHeader.marshalM_pure v⟩
-/-- HelloElemVersionBitmap: neither Len() nor MarshalBinary() modifies the value -/
-theorem helloElemVersionBitmap_pure (v : V) : Pure2 HelloElemVersionBitmap.lenM HelloElemVersionBitmap.marshalM v :=
-  ⟨fun _ _ h => by
-      unfold HelloElemVersionBitmap.lenM at h
-      obtain ⟨_, _, h'⟩ := bind_ok_inv _ _ _ h
-      exact (same_ok _ _ _ _ h').2,
-   HelloElemVersionBitmap.marshalM_pure v⟩
-/-- the HelloElem interface: neither Len() nor MarshalBinary() modifies the value -/
-theorem helloElem_pure (v : V) : Pure2 HelloElem.lenM HelloElem.marshalM v := by
-  constructor
-  · intro l v1 h
-    unfold HelloElem.lenM at h
-    split at h
-    · exact (helloElemVersionBitmap_pure v).1 l v1 h
-    · exact (helloElemHeader_pure v).1 l v1 h
-    · exact absurd h (by simp)
-  · intro bs v2 h
+/-- HelloElemVersionBitmap: Len() does not modify the value -/
+theorem helloElemVersionBitmap_len_pure (v : V) : LenPure HelloElemVersionBitmap.lenM v :=
+  HelloElemVersionBitmap.lenM_pure v
+
+/-- HelloElemVersionBitmap: MarshalBinary() now STORES `Length = 4 + 4·|bitmaps|` in the element header and changes
+    nothing else: what it leaves behind is the same element (same type, same bitmaps) with that Length -/
+theorem helloElemVersionBitmap_marshal_stores (v : V) (bs : Bytes) (v2 : V)
+    (h : HelloElemVersionBitmap.marshalM v = .ok (bs, v2)) :
+    ∃ ty l0 bms, v = .obj "HelloElemVersionBitmap" [.obj "HelloElemHeader" [ty, l0], .list bms] ∧
+      v2 = .obj "HelloElemVersionBitmap" [.obj "HelloElemHeader" [ty, V.u16 (4 + n16 (bms.length * 4))], .list bms] :=
+  HelloElemVersionBitmap.marshalM_shape v bs v2 h
+
+/-- … so the kind is no longer pure (`Pure2` fails): an element built with a stale Length (here 0) comes back with
+    Length 8 -/
+theorem helloElemVersionBitmap_not_pure :
+    ∃ v bs v2, HelloElemVersionBitmap.marshalM v = .ok (bs, v2) ∧ v2 ≠ v :=
+  ⟨.obj "HelloElemVersionBitmap" [.obj "HelloElemHeader" [.num 1, .num 0], .list [.num 18]], _, _, rfl, by
+    intro h; injection h with _ h; injection h with h _; injection h with _ h; injection h with _ h
+    injection h with h _; injection h with h; exact absurd h (by decide)⟩
+
+/-- HelloElemVersionBitmap is repeatable in any order, like the other kinds that store a length: a second
+    MarshalBinary() gives the same bytes and changes nothing further, Len() is the same before and after -/
+theorem helloElemVersionBitmap_repeatable (v : V) :
+    Repeatable HelloElemVersionBitmap.lenM HelloElemVersionBitmap.marshalM v :=
+  HelloElemVersionBitmap.repeatable v
+
+/-- an element that already holds its Length is left untouched by MarshalBinary() -/
+theorem helloElemVersionBitmap_pure_of_settled (ty : V) (bms : List V) :
+    Pure2 HelloElemVersionBitmap.lenM HelloElemVersionBitmap.marshalM
+      (.obj "HelloElemVersionBitmap" [.obj "HelloElemHeader" [ty, V.u16 (4 + n16 (bms.length * 4))], .list bms]) := by
+  refine ⟨HelloElemVersionBitmap.lenM_pure _, ?_⟩
+  intro bs v2 h
+  obtain ⟨ty', l0, bms', e1, e2⟩ := HelloElemVersionBitmap.marshalM_shape _ bs v2 h
+  cases e1; exact e2
+
+/-- the HelloElem interface: Len() does not modify the value -/
+theorem helloElem_len_pure (v : V) : LenPure HelloElem.lenM v := by
+  intro l v1 h
+  unfold HelloElem.lenM at h
+  split at h
+  · exact helloElemVersionBitmap_len_pure v l v1 h
+  · exact (helloElemHeader_pure v).1 l v1 h
+  · exact absurd h (by simp)
+
+/-- the HelloElem interface: repeatable in any order, whatever element the value holds -/
+theorem helloElem_repeatable (v : V) : Repeatable HelloElem.lenM HelloElem.marshalM v := by
+  have hl : ∀ w : V, w.kind = "HelloElemVersionBitmap" → HelloElem.lenM w = HelloElemVersionBitmap.lenM w := by
+    intro w hw; simp only [HelloElem.lenM, hw]
+  have hm : ∀ w : V, w.kind = "HelloElemVersionBitmap" → HelloElem.marshalM w = HelloElemVersionBitmap.marshalM w := by
+    intro w hw; simp only [HelloElem.marshalM, hw]
+  by_cases hk : v.kind = "HelloElemVersionBitmap"
+  · have r := HelloElemVersionBitmap.repeatable v
+    have hk2 : ∀ bs v2, HelloElemVersionBitmap.marshalM v = .ok (bs, v2) → v2.kind = "HelloElemVersionBitmap" := by
+      intro bs v2 h
+      obtain ⟨_, _, _, _, e⟩ := HelloElemVersionBitmap.marshalM_shape v bs v2 h
+      subst e; rfl
+    refine ⟨?_, ?_, ?_, ?_⟩
+    · intro l v1 h1
+      have e := helloElem_len_pure v l v1 h1
+      subst e; exact h1
+    · intro bs v2 h2
+      rw [hm v hk] at h2
+      rw [hm v2 (hk2 _ _ h2)]
+      exact r.marIdem _ _ h2
+    · intro l v1 bs v2 h1 h2
+      rw [hl v hk] at h1
+      rw [hm v hk] at h2
+      rw [hl v2 (hk2 _ _ h2)]
+      exact r.lenAfterMar _ _ _ _ h1 h2
+    · intro l v1 bs v2 h1 h2
+      have e := helloElem_len_pure v l v1 h1
+      subst e; exact h2
+  · apply Pure2.repeatable
+    refine ⟨helloElem_len_pure v, ?_⟩
+    intro bs v2 h
     unfold HelloElem.marshalM at h
     split at h
-    · exact (helloElemVersionBitmap_pure v).2 bs v2 h
+    · rename_i hk'; exact absurd hk' hk
     · exact (helloElemHeader_pure v).2 bs v2 h
     · exact absurd h (by simp)
 
@@ -947,10 +1006,10 @@ theorem hello_len_pure (v : V) : LenPure Hello.lenM v := by
   split at h
   · obtain ⟨⟨ls, es'⟩, hm, h'⟩ := bind_ok_inv _ _ _ h
     cases h'
-    rw [mapM2_pure _ _ _ _ (fun x _ a x' hx => (helloElem_pure x).1 a x' hx) hm]
+    rw [mapM2_pure _ _ _ _ (fun x _ a x' hx => helloElem_len_pure x a x' hx) hm]
   · exact absurd h (by simp)
 
-/-- Hello: MarshalBinary() stores `Header.Length = Len()`; repeatable in any order -/
+/-- Hello: MarshalBinary() stores `Header.Length = Len()` (and every element its own Length); repeatable in any order -/
 theorem hello_repeatable : ∀ v, Repeatable Hello.lenM Hello.marshalM v := by
   apply repeatable_of_lenThen Hello.lenM
     (fun l0 v => do
@@ -973,18 +1032,20 @@ theorem hello_repeatable : ∀ v, Repeatable Hello.lenM Hello.marshalM v := by
       obtain ⟨⟨ebs, es'⟩, hm, h4⟩ := bind_ok_inv _ _ _ h3
       obtain ⟨b, hf, h5⟩ := bind_ok_inv _ _ _ h4
       cases h5
-      have hes := mapM2_pure _ _ _ _ (fun x _ a x' hx => (helloElem_pure x).2 a x' hx) hm
-      subst hes
-      have hl2 : Hello.lenM (.obj "Hello" [Header.setLength l hdr, .list es']) =
-          .ok (l, .obj "Hello" [Header.setLength l hdr, .list es']) := by
-        simp only [Hello.lenM] at hl ⊢
-        obtain ⟨⟨ls, es1⟩, hm1, hl'⟩ := bind_ok_inv _ _ _ hl
-        simp only [Res.ok.injEq, Prod.mk.injEq, V.obj.injEq, List.cons.injEq, V.list.injEq, true_and, and_true] at hl'
-        obtain ⟨e1, e2⟩ := hl'
-        subst e1; subst e2
-        simp only [hm1, Res.bind_ok]
+      simp only [Hello.lenM] at hl
+      obtain ⟨⟨ls, es1⟩, hm1, hl'⟩ := bind_ok_inv _ _ _ hl
+      simp only [Res.ok.injEq, Prod.mk.injEq, V.obj.injEq, List.cons.injEq, V.list.injEq, true_and, and_true] at hl'
+      obtain ⟨e1, e2⟩ := hl'
+      subst e1; subst e2
+      have hm2 := mapM2_len_after_mar HelloElem.lenM HelloElem.marshalM _ _ _ _ _ hm1 hm
+        (fun x _ l y b z hx hy => (helloElem_repeatable x).lenAfterMar l y b z hx hy)
+      have hm3 := mapM2_idem HelloElem.marshalM _ _ _
+        (fun x _ b z hx => (helloElem_repeatable x).marIdem b z hx) hm
+      have hl2 : Hello.lenM (.obj "Hello" [Header.setLength (8 + sum16 ls) hdr, .list es']) =
+          .ok (8 + sum16 ls, .obj "Hello" [Header.setLength (8 + sum16 ls) hdr, .list es']) := by
+        simp only [Hello.lenM, hm2, Res.bind_ok]
       refine ⟨hl2, ?_⟩
-      simp only [hl2, Res.bind_ok, Header.setLength_idem, hhb, hm, hf]
+      simp only [hl2, Res.bind_ok, Header.setLength_idem, hhb, hm3, hf]
     · exact absurd hE (by simp)
 
 /-! ### lists of instructions -/
